@@ -648,5 +648,11 @@ def methodGetattrShape : List String × String × Bool × Bool := (["__name__"],
 def jobGetattrShape : String × Bool × Bool := ("{0}.{1}", true, true)
 /-- `MultiCall._request`: `del self._job_list[:]` is the statement after the `_run_request` call (`multicallClears`). -/
 def clearsJobsWhen : String := "after-run-request"
+/-- `MultiCall._request`: the value `_run_request` returned is handed to `MultiCallIterator` as it is (`wrapResponses`:
+    `[]` when falsy, `[value]` for a single object) — entry `i` of the iterator is entry `i` of the server's reply, for a
+    batch of any size; nothing sorts, filters or rebuilds the list. -/
+def responsesUntouched : Bool := true
+/-- `job.request()` is called without arguments: every job draws a fresh id (`renderJobs`: job `i` draws `fresh i`). -/
+def jobIds : String := "default"
 
 end JRV.EndToEnd
